@@ -508,17 +508,18 @@ def main_versions(data):
     def on_alarm(signum, frame):
         raise CaseTimeout("identifier computation / save / load of the graph exceeded its time limit")
 
-    signal.signal(signal.SIGALRM, on_alarm)
+    signal.signal(signal.SIGPROF, on_alarm)
     for case in data["cases"]:
         f = save_case if data["mode"] == "save" else load_case
         # the identifier computation of the real code is exponential on some cyclic graphs (a cost, not a C20 matter): such a
-        # case is recorded as an error (bounded share) instead of stalling the check
-        signal.alarm(10)
+        # case is recorded as an error (bounded share) instead of stalling the check.  The limit is CPU time of this process
+        # (ITIMER_PROF), not wall time: a loaded machine must not turn into case errors
+        signal.setitimer(signal.ITIMER_PROF, 12)
         try:
             rec = f(mods[case["lib"]], root, case)
         except CaseTimeout as e:
             rec = {"error": f"TimeoutError: {e}", "saved": {}, "old": None, "variants": {}, "wrap": [], "load_errors": {}}
-        signal.alarm(0)
+        signal.setitimer(signal.ITIMER_PROF, 0)
         out.append(rec)
     Path(sys.argv[2]).write_text(json.dumps(out))
 
@@ -538,7 +539,7 @@ def main():
     try:
         real = Real()
         for ci, case in enumerate(data["cases"]):
-            signal.alarm(90)
+            signal.alarm(240)  # wall time: generous, the machine may be heavily loaded
             try:
                 rec = run_case(real, root, case)
             except TimeoutError as e:
